@@ -141,7 +141,7 @@ func VerifC13_Positions() {
 		}
 		body += `<i v-if="(` + expr + `) == ` + lit + `">IF</i><i v-else>ELSE</i>`
 	}
-	out, err := zzRender(NewFS(nil), body, zzC13Env())
+	out, err := zzRenderVia(zzEntry(), nil, nil, body, zzC13Env())
 	zzNote("expr", expr)
 	zzNote("want", want)
 	zzNote("out", out)
@@ -261,7 +261,7 @@ func VerifC13_Pipes() {
 	}
 	env := zzC13Env()
 	env["n5"] = "5"
-	out, err := zzRender(NewFS(nil, WithFuncs(funcs)), body, env)
+	out, err := zzRenderVia(zzEntry(), nil, []LoadOption{WithFuncs(funcs)}, body, env)
 	zzNote("expr", expr)
 	zzNote("out", out)
 	zzNote("log", strings.Join(log, " "))
@@ -274,7 +274,9 @@ func VerifC13_Pipes() {
 	} else {
 		zzAssert(strings.Contains(out, `title="`+want+`"`), "C13.pipe.value")
 	}
-	zzAssert(strings.Join(log, " ") == wantLog, "C13.pipe.left-to-right")
+	// the helper renders the request twice on one engine: each render calls
+	// the functions once, left to right
+	zzAssert(strings.Join(log, " ") == wantLog+" "+wantLog, "C13.pipe.left-to-right")
 }
 
 // VerifC13_Errors: unknown function, wrong argument count, impossible
